@@ -50,6 +50,10 @@ let () =
        | "lines" ->
          let s = str () in
          print_endline (String.concat "|" (List.map pstr (split_keep s)))
+       | "endpos" ->
+         let l = nextn () in let c = nextn () in let s = str () in
+         let (el, ec) = end_pos s l c in
+         print_endline (Printf.sprintf "%d %d" (int_of_n el) (int_of_n ec))
        | "re" ->
          let v = nextn () in let id = nextn () in let pos = nextn () in let s = str () in
          (match regex_by_id id v with
